@@ -8,7 +8,7 @@ LEVEL = "exploration"
 ENGINE = "progspace"
 TECHNIQUE = "bounded exhaustive exploration: every mixed pack of breaking edges x every suppression of a catalogue of unsatisfiable specifications (each section kind x each selecting property), singly and in all pairs"
 RULE = ("packs of C10 (both directions); catalogue: for [suppress_type], [suppress_function], [suppress_variable], [suppress_file] every selecting property with a value the generator's model proves unsatisfiable "
-        "(names under the reserved prefix zz_, anchored regexes that match no generated name, file_name / soname regexes of another file, type_kind absent from the programs, symbol_version never used, "
+        "(names under the reserved prefix zz_, anchored regexes that match no generated name, file_name / soname regexes of another file, type_kind absent from the programs (also as the ONLY unsatisfiable constraint, next to name_regexp = .*, on packs of plain structs that contain no union / enum / typedef / array), symbol_version never used, "
         "source locations in no generated file, change kinds combined with unmatched names), ~60 files and all their pairs (thorough). Oracle: stdout and exit status identical to the run without --suppressions. "
         "Non-trivial: every (pack, direction, suppression).")
 TEXT = "Complete catalogue x pack cross; the reference is the same comparison without the suppression."
@@ -38,10 +38,25 @@ def prepare(ctx):
     toolrun.tool("plain", "abidiff")
 
 
+# suppressions whose ONLY unsatisfiable constraint is the type kind: used on packs of plain structs (members char/int/long/int*,
+# reached by pointer or by value), which contain no union, enum, typedef or array type
+KIND_ONLY = ["[suppress_type]\n  type_kind = %s\n  name_regexp = .*\n" % k for k in ("union", "enum", "typedef", "array")]
+CAT_ALL = CAT + KIND_ONLY
+
+
+def _plain_struct_packs(quick):
+    specs = [{"k": "struct", "m": list(ms), "p": p} for n in (1, 2) for ms in itertools.product(["c", "i", "l", "p"], repeat=n) for p in ("ptr", "byval")]
+    edges = [e for e in pc.edge_list(specs, "breaking") if not e[1].startswith(("remove-function", "add-parameter", "remove-parameter", "change-return"))]
+    if quick:
+        edges = edges[::3]
+    return pc.chunks([list(e) for e in edges], 24)
+
+
 def stages(ctx):
     packs = pc.mixed_packs(ctx.quick)
     sel = packs[::3] if ctx.quick else packs
-    st = [("singles", [{"pack": p, "ids": list(range(len(CAT)))} for p in sel])]
+    kind_ids = list(range(len(CAT), len(CAT_ALL)))
+    st = [("singles", [{"pack": p, "ids": list(range(len(CAT)))} for p in sel] + [{"pack": p, "ids": kind_ids} for p in _plain_struct_packs(ctx.quick)])]
     if not ctx.quick:
         pairs = list(itertools.combinations(range(len(CAT)), 2))
         st.append(("pairs", [{"pack": p, "pairs": pairs} for p in packs[:4]]))
@@ -59,16 +74,16 @@ def evaluate(ctx, e):
         for combo in combos:
             sp = os.path.join(d, "s.suppr")
             with open(sp, "w") as f:
-                f.write("".join(CAT[i] for i in combo))
+                f.write("".join(CAT_ALL[i] for i in combo))
             rc, out, err = pc.abidiff(ctx, a, b, ["--suppressions", sp])
             n += 1
             if rc != rc0 or out != out0:
-                first = CAT[combo[0]].split("\n")
+                first = CAT_ALL[combo[0]].split("\n")
                 cls = first[0].strip("[]") + "/" + first[1].split("=")[0].strip() + ("+more" if len(combo) > 1 or len(first) > 3 else "")
                 fails.append({"sig": "C22 abidiff mismatch:%s %s" % ("exit-status" if rc != rc0 else "report", cls),
-                              "what": "suppression %r changes the result (%s): exit %s vs %s, output differs: %s" % ("".join(CAT[i] for i in combo), direction, rc, rc0, out != out0),
+                              "what": "suppression %r changes the result (%s): exit %s vs %s, output differs: %s" % ("".join(CAT_ALL[i] for i in combo), direction, rc, rc0, out != out0),
                               "element": {"pack": e["pack"], "ids": combo} if len(combo) == 1 else {"pack": e["pack"], "pairs": [combo]}})
                 outs["changed"] = outs.get("changed", 0) + 1
             else:
                 outs["unchanged"] = outs.get("unchanged", 0) + 1
-    return {"evaluations": n, "nontrivial_count": n, "outcomes": outs, "failures": fails[:10], "sample": {"suppression": CAT[combos[0][0]], "units": len(info)}}
+    return {"evaluations": n, "nontrivial_count": n, "outcomes": outs, "failures": fails[:10], "sample": {"suppression": CAT_ALL[combos[0][0]], "units": len(info)}}
